@@ -19,7 +19,7 @@ META = dict(
                  '"leaves the wrapped pipeline untouched": same stage objects, classes and nesting afterwards, and the same observation',
                  'hit counts are checked where an independent measurement exists: the top-level count equals the examples delivered, the failed count equals the fetches that raised, '
                  'and the innermost (source) count equals the accesses counted by an instrumented source container'],
-    bounds=dict(quick='n in 0..3; every op at depth 1; op-class pairs at depth 2 (n = 2)', thorough='all depth-2 pairs n in 1..3'),
+    bounds=dict(quick='n in 0..3; every op at depth 1; op-class pairs at depth 2 (n = 2)', thorough='all depth-2 pairs (dict-backed n in {1,3}, list-backed n=2)'),
     outside=['hit counts of intermediate stages (no independent measurement)', 'real prefetch threads (serial contract)', 'depth > 2'],
 )
 
@@ -271,7 +271,7 @@ def conditions(tier, seed):
             add('dict', 2, (a, b))
     else:
         for backing in ('list', 'dict'):
-            for n in (1, 2, 3):
+            for n in ((1, 3) if backing == 'dict' else (2,)):
                 for a in U.ALPHABET:
                     for b in U.ALPHABET:
                         if a[0] in sel and b[0] in sel and n > 2:
